@@ -11,7 +11,8 @@ ID = "C10"
 LEVEL = "exploration"
 TIERS = {"quick": {"cases": 1500, "wall": 80, "min_nontrivial": 300},
          "thorough": {"cases": 40000, "wall": 1200, "min_nontrivial": 5000}}
-RULE = ("generator -> valid program; trees of parse(P) and of the re-parse of str(tree), std in {f2003,f2008}, comments "
+RULE = ("generator -> valid program (a third of the comment-free sources carry two extra statements with 36-entry comma "
+        "lists of repeated entries); trees of parse(P) and of the re-parse of str(tree), std in {f2003,f2008}, comments "
         "dropped / kept / directives processed; own structural traversal (content/items through tuples and lists) "
         "checks: node reached once, parent == structural parent, root.parent is None, get_root() is root, walk() "
         "yields exactly the reachable nodes once in depth-first order, statements yielded by walk print in the order "
@@ -54,10 +55,25 @@ def stmt_order_problem(root):
     return None
 
 
+def long_lists(P, src):
+    """Two statements with comma lists of 36 entries, many of them equal, after the first assignment statement
+    (canonical layout: line k holds statement k)."""
+    lines = src.split("\n")
+    for k, s in enumerate(P.stmts):
+        if s.kind == "assign" and k < len(lines):
+            ind = lines[k][:len(lines[k]) - len(lines[k].lstrip())]
+            items = ", ".join(str(j % 3) for j in range(36))
+            lines[k + 1:k + 1] = [ind + "vf_long = [%s]" % items, ind + "call vf_sub(%s)" % items.replace("0", "a(1)")]
+            break
+    return "\n".join(lines)
+
+
 def one(P, std, ci, cseed, mons=None):
     opts = CONFIGS[ci]
     if opts["ignore_comments"]:
         src = P.canonical()
+        if cseed % 3 == 0:
+            src = long_lists(P, src)
     else:
         src, _ = insert_comments(P, random.Random(cseed))
     r = parse_monitored(src, std, conserve=False, **opts)
